@@ -933,8 +933,20 @@ var SweepValues = []byte{0x00, 0x01, '.', '\\', ' ', '/', ':', '@', 0x7f, 0x80, 
 // ByteSweep returns seed with every byte position below maxPos replaced, in turn, by every sweep value that differs from
 // the byte there: the systematic form of the single-byte mutation.
 func (c *Corpus) ByteSweep(seed []byte, maxPos int) (out [][]byte) {
+	return c.byteSweep(seed, maxPos, SweepValues)
+}
+
+// SweepValuesWide adds the small numbers that type, version and count fields switch on.
+var SweepValuesWide = append(append([]byte{}, SweepValues...), 2, 3, 4, 5, 6, 7, 8, 9, 10, 16, 32, 64)
+
+// ByteSweepWide is ByteSweep over SweepValuesWide.
+func (c *Corpus) ByteSweepWide(seed []byte, maxPos int) (out [][]byte) {
+	return c.byteSweep(seed, maxPos, SweepValuesWide)
+}
+
+func (c *Corpus) byteSweep(seed []byte, maxPos int, values []byte) (out [][]byte) {
 	for p := 0; p < len(seed) && p < maxPos; p++ {
-		for _, v := range SweepValues {
+		for _, v := range values {
 			if seed[p] == v {
 				continue
 			}
